@@ -1542,12 +1542,32 @@ def _guard_knowledge(block: tuple) -> tuple:
                 break
         return n
 
+    def in_arm(arm, cond, truth):
+        """the first statement of an arm is evaluated in the light of the test (its value is computed before anything is stored);
+        the plain value statements that follow it likewise"""
+        arm = tuple(arm)
+        if not arm or _has_effectful_call(cond) or not atoms_of(arm[:1] + arm[1:1 + pure_run(arm[1:])], lambda y: y[0] == "ite"):
+            return arm
+        first = arm[0]
+        n = 0
+        if isinstance(first, tuple) and first and first[0] in ("set", "ret", "expr", "assert", "aug") and not (first[0] == "set" and _has_effectful_call(first[2]) and False):
+            if first[0] == "set" and len(first) == 3:
+                new_first = ("set", first[1], assume(first[2], cond, truth))
+            elif first[0] == "aug" and len(first) == 4:
+                new_first = ("aug", first[1], first[2], assume(first[3], cond, truth))
+            else:
+                new_first = assume(first, cond, truth)
+            is_plain = first[0] in ("ret", "assert") or (first[0] == "set" and len(first) == 3 and first[1][:1] == ("v",) and not _has_effectful_call(first[2]))
+            n = pure_run(arm[1:]) if is_plain else 0
+            return (new_first,) + tuple(assume(tuple(arm[1:1 + n]), cond, truth)) + arm[1 + n:]
+        return arm
+
     def rec(blk):
         out = list(blk)
         for i, st in enumerate(out):
             if isinstance(st, tuple) and st:
                 if st[0] == "if" and len(st) == 4:
-                    out[i] = st = ("if", st[1], rec(st[2]), rec(st[3]))
+                    out[i] = st = ("if", st[1], in_arm(rec(st[2]), st[1], True), in_arm(rec(st[3]), st[1], False))
                     if st[3] == () and _ends_in_exit(st[2]) and not _has_effectful_call(st[1]) and atoms_of(tuple(out[i + 1:]), lambda y: y[0] == "ite"):
                         n = pure_run(out[i + 1:])
                         if n:
